@@ -6,6 +6,8 @@ From Coq Require Import List ZArith.
 Import ListNotations.
 From Goag Require Import Base.Str Model.Params Model.Json Spec.JsonSpec
      Proofs.JsonEncProofs Proofs.JsonRtProofs Model.OneOf Proofs.OneOfProofs.
+From Goag Require Model.JsonString.
+From Goag Require Import Proofs.JsonStringProofs.
 
 (* Every value of a generated type encodes to a JSON value: whatever the allOf
    structure (embedded $ref members and inline members in any order, embedded
@@ -66,3 +68,19 @@ Theorem C06_oneof_roundtrip_discriminator : forall fmt_float fmt_time parse_num 
     dec_oneof parse_num parse_time o j = Ok (single (length (o_variants o)) i v).
 Proof. exact oneof_roundtrip_disc. Qed.
 Print Assumptions C06_oneof_roundtrip_discriminator.
+
+(* The leaves: the text encoding/json writes for a string value or an object
+   key (Model/JsonString.v transcribes its string encoder with HTML escaping on,
+   and the decoder's unquote).  Whatever bytes the string holds, the decoder
+   reads the text back as the same bytes ... *)
+Theorem C06_string_text_roundtrip : forall s, JsonString.unquote (JsonString.quote s) = Some s.
+Proof. exact unquote_quote. Qed.
+Print Assumptions C06_string_text_roundtrip.
+
+(* ... and the text is one JSON string token: a scanner looking for the closing
+   quote finds it at the end of the text, whatever follows; no byte of the value
+   can end the literal early or open an escape that swallows the closing quote *)
+Theorem C06_string_text_is_one_token : forall s rest,
+  scan_end (JsonString.quote_body s ++ JsonString.dquote :: rest) = Some rest.
+Proof. exact quote_is_one_token. Qed.
+Print Assumptions C06_string_text_is_one_token.
